@@ -33,6 +33,13 @@ pub struct Plan {
     /// and retried instead of taking the orphan branch, so every fetch completion order must converge
     #[serde(default)]
     pub loading_completed: bool,
+    /// > 0: the long-chain family: the peer holds a producer chain with this small genesis period that is
+    /// longer than its block ring (2 x gp) by `long_extra` blocks, so that it has purged its oldest blocks;
+    /// the syncer is empty and joins at the oldest block the peer still serves
+    #[serde(default)]
+    pub long_gp: u64,
+    #[serde(default)]
+    pub long_extra: u64,
 }
 
 fn gen(seed: u64, tier: Tier) -> Plan {
@@ -57,6 +64,8 @@ fn gen(seed: u64, tier: Tier) -> Plan {
         in_order_fetch: rng.chance(1, 2),
         disconnect_at: if rng.chance(1, 5) { Some(rng.range(5, 60)) } else { None },
         loading_completed: rng.chance(1, 3),
+        long_gp: if rng.chance(1, 8) { rng.range(3, 5) } else { 0 },
+        long_extra: rng.range(1, 16),
     }
 }
 
@@ -67,7 +76,7 @@ impl Scenario for C15 {
     fn meta(&self) -> Meta {
         Meta {
             level: "exploration",
-            rule: "run = two real full nodes (routing, verification, consensus processors; SimNet; fetch server reading the peer's simulated disk). Peer holds prefix+Y, syncer prefix+X with |Y| > |X| (prefix 0..35/120 so that 0, one or several fork-id checkpoints are populated; X empty, or 1..8/30 blocks). The syncer dials its static peer; real handshake; BlockchainRequest; header-hash stream; fetch batch size in {1,2,3,10}. Seeded scheduling of every pending message / channel item / fetch completion; faults: duplicated messages (5%), failed fetches (15%, retried by the timer path), one forced disconnect + reconnect; fetch completions either FIFO or in any order; in a third of the runs the syncer is configured with initial_loading_completed = true (park-and-retry of blocks whose parent is unknown instead of the orphan branch), where every completion order must converge. Oracle: the set of header hashes the peer streams covers every block of Y after the true fork point; after faults stop, within 80 rounds of (run to quiescence, advance 2.1 s, tick routing timers) the syncer's tip equals the peer's tip; no processor panics. distinct_nontrivial = distinct (prefix, |X|, |Y|, fault set, schedule digest) that reached quiescence.",
+            rule: "run = two real full nodes (routing, verification, consensus processors; SimNet; fetch server reading the peer's simulated disk). Peer holds prefix+Y, syncer prefix+X with |Y| > |X| (prefix 0..35/120 so that 0, one or several fork-id checkpoints are populated; X empty, or 1..8/30 blocks). The syncer dials its static peer; real handshake; BlockchainRequest; header-hash stream; fetch batch size in {1,2,3,10}. Seeded scheduling of every pending message / channel item / fetch completion; faults: duplicated messages (5%), failed fetches (15%, retried by the timer path), one forced disconnect + reconnect; fetch completions either FIFO or in any order; in a third of the runs the syncer is configured with initial_loading_completed = true (park-and-retry of blocks whose parent is unknown instead of the orphan branch), where every completion order must converge. An eighth of the runs is the long-chain family: the peer's producer chain (genesis period 3..5) is 1..16 blocks longer than its block ring, it has purged its oldest blocks, and an empty syncer must join at the oldest block still served and reach the tip. Oracle: the set of header hashes the peer streams covers every block of Y after the true fork point; after faults stop, within 80 rounds of (run to quiescence, advance 2.1 s, tick routing timers) the syncer's tip equals the peer's tip; no processor panics. distinct_nontrivial = distinct (prefix, |X|, |Y|, fault set, schedule digest) that reached quiescence.",
             real: &["RoutingThread", "VerificationThread", "ConsensusThread", "Network/Peer handshake", "BlockchainSyncState", "Blockchain::generate_fork_id/generate_last_shared_ancestor/add_block", "Message codecs", "Storage"],
             stubs: &["SimNet (ordered per-connection queues)", "fetch server over the peer's SimDisk", "SimClock", "event-granularity scheduler instead of tokio (handlers run to completion)", "MiningThread idle"],
             assumptions: &["16-bit fork-id prefix collisions (2^-16 per checkpoint) are ignored", "out-of-order fetch completion that delivers a child before its parent is the orphan class (known finding of C03/C05) and is reported under its own signature"],
@@ -84,6 +93,9 @@ impl Scenario for C15 {
     }
     fn execute(&self, plan: &Value) -> RunResult {
         let plan: Plan = serde_json::from_value(plan.clone()).expect("plan");
+        if plan.long_gp > 0 {
+            return long_chain_family(&plan);
+        }
         let mut r = RunResult::default();
         let mut w = World::new(plan.seed, Params::default());
         let mut rng = Rng::new(mix(plan.seed, 15));
@@ -350,4 +362,117 @@ impl Scenario for C15 {
         }
         out.into_iter().map(|p| serde_json::to_value(p).unwrap()).collect()
     }
+}
+
+/// see Plan::long_gp
+fn long_chain_family(plan: &Plan) -> RunResult {
+    let mut r = RunResult::default();
+    let gp = plan.long_gp;
+    let params = Params { genesis_period: gp, heartbeat: 1000, n_users: 3, slips_per_user: 4, base_amount: 1_000_000 };
+    let mut rng = Rng::new(mix(plan.seed, 0x15c0));
+    let mut c = match crate::util::guarded(|| Chain::new(plan.seed, params.clone(), 8)) {
+        Ok(Ok(c)) => c,
+        _ => {
+            r.discarded = true;
+            return r;
+        }
+    };
+    let n_blocks = 2 * gp + plan.long_extra;
+    while c.tip_rec().id < n_blocks {
+        let mut txs = vec![];
+        let user = 1 + rng.usize_below(3);
+        if let Some((t, _)) = c.payment(user, 1 + rng.usize_below(3), rng.usize_below(64), 0, 0, &[]) {
+            txs.push(t);
+        } else {
+            let tag = c.tag();
+            let ts = c.tip_rec().ts + tag;
+            txs.push(make_tx(&c.keys[1].clone(), &[], &[(c.keys[1].pk, 0)], ts, &tag.to_le_bytes()));
+        }
+        let tip_hash = c.tip_rec().hash;
+        let want = (c.tip_rec().id + 1) % 2 == 0;
+        let gt = want || !c.node.bc.is_golden_ticket_count_valid(tip_hash, want, false, false);
+        match crate::util::guarded(|| c.extend(txs, gt, 2300)) {
+            Ok(Ok(_)) => {}
+            _ => {
+                r.discarded = true;
+                r.probe("long_chain_producer_refused");
+                return r;
+            }
+        }
+    }
+    let start = c.tip_rec().ts + 10_000;
+    let mut sim = Sim::new(mix(plan.seed, 0x15c1), start);
+    let mut opts = NodeOpts::default();
+    opts.batch_size = plan.batch;
+    let peer_cfg = c.cfg.clone();
+    let mut sync_cfg = c.cfg.clone();
+    sync_cfg.peers = vec![static_peer("node0")];
+    let p = sim.add_node(&c.keys[0].clone(), &peer_cfg, &opts);
+    let s = sim.add_node(&c.keys[2].clone(), &sync_cfg, &opts);
+    let pchain: Vec<Vec<u8>> = c.recs.iter().map(|b| b.bytes.clone()).collect();
+    if !sim.preload(p, &pchain) {
+        r.discarded = true;
+        r.probe("preload_failed");
+        return r;
+    }
+    sim.init_node(p, false);
+    sim.init_node(s, false);
+    let want = sim.nodes[p].tip();
+    if want.1 != c.tip_rec().hash {
+        r.discarded = true;
+        r.probe("peer_chain_not_adopted");
+        return r;
+    }
+    r.fault("peer_chain_longer_than_its_block_ring", 1);
+    let mut converged = false;
+    let mut rounds = 0;
+    while rounds < 60 {
+        rounds += 1;
+        sim.advance(2100);
+        sim.tick(s, P_ROUTING);
+        sim.tick(p, P_ROUTING);
+        sim.resolve_connects(|n, _| if n == s { Some(p) } else { None });
+        let mut k = 0;
+        loop {
+            // fetches complete in request order (a child before its parent is the orphan class)
+            let acts: Vec<Action> = sim.enabled().into_iter().filter(|a| !matches!(a, Action::FetchDone(i) | Action::FetchFail(i) if *i > 0)).collect();
+            if acts.is_empty() {
+                break;
+            }
+            let a = acts[sim.rng.usize_below(acts.len())].clone();
+            sim.apply(a);
+            k += 1;
+            if k > 100_000 {
+                break;
+            }
+        }
+        if !sim.panics.is_empty() {
+            break;
+        }
+        if sim.nodes[s].tip() == want && sim.quiet() {
+            converged = true;
+            break;
+        }
+    }
+    r.steps = sim.steps;
+    r.sim_time_ms = sim.now() - start;
+    r.schedule_hash = sim.schedule_digest.get();
+    if let Some((n, what, pn)) = sim.panics.first() {
+        r.violate(format!("C15|panic|{}|{}", what, pn.site()), format!("long-chain family: node{} {} panicked: {} ({}:{})", n, what, pn.msg.chars().take(140).collect::<String>(), pn.file, pn.line));
+    } else if !converged {
+        r.violate(
+            "C15|not-converged|peer-chain-longer-than-ring",
+            format!("long-chain family (genesis period {}, peer at id {}): after {} rounds the empty syncer is at id {}", gp, want.0, rounds, sim.nodes[s].tip().0),
+        );
+    } else {
+        r.probe("converged_long_chain");
+        let mut d = Digest::new();
+        d.u64(gp).u64(plan.long_extra).u64(plan.batch as u64).u64(sim.schedule_digest.get());
+        r.nontrivial.push(d.get());
+    }
+    let mut t = Digest::new();
+    t.u64(sim.schedule_digest.get()).bytes(&sim.nodes[s].tip().1).u64(converged as u64);
+    r.state_hash = t.get();
+    r.trace_hash = t.get();
+    r
 }
